@@ -46,6 +46,13 @@ def gen(chk, tier):
     g.one("wrappers_id_too_long", "sm2.sign", kind="id", id=big, pubx=px, puby=py, priv=b32(d), msg=[1, 2, 3],
           script=sm2gen.script_of([rscalar(rng)]))
     g.one("wrappers_id_too_long", "sm2.verify", kind="id", id=big, pubx=px, puby=py, msg=[1, 2, 3], r=b32(1), s=b32(1))
+    # ids of 2^29 bytes and more (carried as a count of zero bytes): a bit length computed in 32 bits wraps there, and a
+    # byte length taken modulo 2^32 would look like a short id again; all must be refused by ZA, Sign and Verify
+    for nz in ([1 << 29] if q else [1 << 29, (1 << 29) + 16, (1 << 30) + 100]):
+        g.one("id_len_32bit", "sm2.za", id=[], id_zeros=nz, pubx=px, puby=py)
+        g.one("id_len_32bit", "sm2.sign", kind="id", id=[], id_zeros=nz, pubx=px, puby=py, priv=b32(d), msg=[1, 2, 3],
+              script=sm2gen.script_of([rscalar(rng)]))
+        g.one("id_len_32bit", "sm2.verify", kind="id", id=[], id_zeros=nz, pubx=px, puby=py, msg=[1, 2, 3], r=b32(1), s=b32(1))
     # rejected candidates through the wrappers
     g.one("wrappers_rejections", "sm2.sign", kind="za", za=rb(rng, 32), msg=rb(rng, 10), priv=b32(d),
           script=sm2gen.script_of([0, N, rscalar(rng), rscalar(rng)]))
